@@ -1,4 +1,5 @@
 import Proofs.Delta
+import Proofs.DeltaFlat
 /-!
 # C08 — bidirectional deltas invert exactly and detect a mismatched base
 
@@ -83,5 +84,30 @@ example : 1 ≤ (applyDelta true { valuesChanged := [{ path := [.str "a"], oldVa
     (.dict [(.str "a", .str "CORRUPTED#")])).errs :=
   C08_detects_first _ _ [] _ (.str "a") (.dict [(.str "a", .str "CORRUPTED#")]) (.str "CORRUPTED#") (.int 1) rfl rfl rfl
     (by simp [getItem, dictGet, keyEq]) rfl (by simp [pyEq, numEq, numOf])
+
+/-! ### flat dictionaries, end to end -/
+
+/-- **A bidirectional delta of two flat dictionaries inverts exactly.** For every pair of dictionaries with string
+keys (no key twice) and scalar values, every ordered configuration without path restrictions: with
+`delta = Delta(DeepDiff(t1, t2), bidirectional=True)` (the payload is built undirected, with the values always
+included), `t1 + delta` is a dictionary `== t2` and `t2 - delta` is a dictionary `== t1`; in both directions every
+entry's recorded old value is verified against the base and no error is logged (`errs = 0`, nothing raised). -/
+theorem C08_flat_dict_inverse (cfg : DCfg) (hp : Diff.Plain cfg) (al : Align) (hashOf : PyVal → String)
+    (kvs1 kvs2 : List (PyVal × PyVal))
+    (hs1 : StrKeys kvs1) (hs2 : StrKeys kvs2) (hn1 : (kvs1.map (·.1)).Nodup) (hn2 : (kvs2.map (·.1)).Nodup)
+    (hb1 : ∀ p ∈ kvs1, isBasic p.2 = true) (hb2 : ∀ p ∈ kvs2, isBasic p.2 = true)
+    (hpriv : ∀ k, k ∈ kvs1.map (·.1) ∨ k ∈ kvs2.map (·.1) → (cfg.ignorePrivate && isPrivate k) = false) :
+    (∃ r, applyDelta true (buildDelta false true (.dict kvs1) (.dict kvs2) (deepDiff cfg al hashOf (.dict kvs1) (.dict kvs2))) (.dict kvs1)
+        = { root := r, post := [], errs := 0, raised := none } ∧ pyEq r (.dict kvs2) = true) ∧
+    (∃ r, subDelta true (buildDelta false true (.dict kvs1) (.dict kvs2) (deepDiff cfg al hashOf (.dict kvs1) (.dict kvs2))) (.dict kvs2)
+        = .ok { root := r, post := [], errs := 0, raised := none } ∧ pyEq r (.dict kvs1) = true) :=
+  flat_dict_bidirectional cfg hp al hashOf kvs1 kvs2 hs1 hs2 hn1 hn2 hb1 hb2 hpriv
+
+/-- the hypotheses are met by a pair with an added key, a removed key, a changed value and a changed type -/
+example : let kvs1 : List (PyVal × PyVal) := [(.str "a", .int 1), (.str "b", .str "x"), (.str "c", .none), (.str "gone", .bool true)]
+    let kvs2 : List (PyVal × PyVal) := [(.str "a", .int 2), (.str "b", .int 7), (.str "c", .none), (.str "new", .float 25 1)]
+    StrKeys kvs1 ∧ StrKeys kvs2 ∧ (kvs1.map (·.1)).Nodup ∧ (kvs2.map (·.1)).Nodup ∧
+    (∀ p ∈ kvs1, isBasic p.2 = true) ∧ (∀ p ∈ kvs2, isBasic p.2 = true) := by
+  simp [StrKeys, isBasic]
 
 end Delta
